@@ -181,3 +181,52 @@ def exception_identity(ctx, module_names, rid):
                                         node.id, node.id),
                       where='%s:%d' % (mod.relpath, node.lineno), rid=rid)
     return n_sites
+
+
+def table_owners(ctx, table, classes, owners, rid, why):
+    """who-may-touch rule for a manager / server table: every expression
+    `self.<table>` in the given classes (subclasses included) sits in one of
+    the owner methods, or in a private helper whose in-package callers are
+    all owners (three levels)."""
+    m = ctx.model
+    cl = []
+    for cn in classes:
+        c = m.cls(cn)
+        for k in [c] + list(m.subclasses(c)):
+            if k not in cl:
+                cl.append(k)
+    funcs = [f for c in cl for f in c.methods.values()]
+    callers = {}
+    for g in funcs:
+        for t in m.callees(g):
+            callers.setdefault(t, set()).add(g)
+
+    def owned(f, depth=0):
+        if f.name in owners:
+            return True
+        cs = callers.get(f, set())
+        return bool(cs) and depth < 3 and f.name.startswith('_') and \
+            all(owned(g, depth + 1) for g in cs)
+    n = 0
+    for f in funcs:
+        # a read inside a log statement is not an access that matters
+        logged = set()
+        for st in m._walk_own(f.node):
+            if isinstance(st, ast.Expr) and isinstance(st.value, ast.Call) \
+                    and ('logger' in U(st.value.func) or
+                         '_get_logger' in U(st.value.func)):
+                logged |= {id(y) for y in ast.walk(st)}
+        for x in m._walk_own(f.node):
+            if isinstance(x, ast.Attribute) and U(x) == 'self.' + table \
+                    and id(x) not in logged:
+                n += 1
+                ctx.check(owned(f), '%s.%s' % (f.cls.name, f.name),
+                          'self.%s is touched by one of its owners (%s)'
+                          % (table, ', '.join(owners)),
+                          key='foreign access to ' + table,
+                          reason='%s.%s reads or writes self.%s (line %d); '
+                          'the table is owned by %s: %s' % (
+                              f.cls.name, f.name, table, x.lineno,
+                              ', '.join(owners), why),
+                          where=where(f, x), rid=rid)
+    return n
